@@ -22,8 +22,8 @@ Tolerances are a-priori rounding models (``e_m = eps_t + eps64*(|X_m|/dx + 2)`` 
   bilinear        (4*4^d + 64 + n_max/2)*eps_t*sum_m|F_m|(I|u|)_m   (the weight error itself cancels: same w in both directions)
   force integral  sum_m|F_m|*((64 + n_max/2)*eps_t + 64*eps_t + 4*eps64*kap_m)
   first moment    sum_m|F_m|*((|X_m - p| + 2dx)*(same bracket) + 24*e_m*dx)
-Measured max error/tolerance over seeds 0..5 quick and 0,1 thorough (``rec.stat``): interpolation 0.026, spreading 0.080,
-bilinear 0.017, force integral 0.029, first moment 0.020.  (One harness bug was found by the thorough tier and fixed: the
+Measured max error/tolerance over seeds 0..5 quick and 0,1 thorough (``rec.stat``): interpolation 0.026, spreading 0.078,
+bilinear 0.017, force integral 0.024, first moment 0.016.  (One harness bug was found by the thorough tier and fixed: the
 bilinear tolerance must not vanish when the field is zero on the closed-form support but a noise-level weight of the
 floor-shifted window touches a spike.)
 
